@@ -32,6 +32,7 @@ type Case struct {
 	GoOut  string            `json:"go_out,omitempty"`
 	LeanIn string            `json:"lean_in,omitempty"`
 	LeanOut string           `json:"lean_out,omitempty"`
+	Detail  string           `json:"detail,omitempty"`
 }
 
 func hx(b []byte) string {
@@ -162,6 +163,7 @@ func runWorkers(cases []*Case, timeout time.Duration) {
 						continue
 					}
 					c.GoOut = wr.Out
+					c.Detail = wr.Detail
 					if len(wr.Oracle) > 0 {
 						if c.Oracle == nil {
 							c.Oracle = map[string]string{}
@@ -204,6 +206,7 @@ func crashSummary(stderr string) string {
 
 type workerResult struct {
 	Out    string            `json:"out"`
+	Detail string            `json:"detail,omitempty"`
 	Oracle map[string]string `json:"oracle,omitempty"`
 }
 
@@ -234,7 +237,8 @@ func workerMain() {
 func execCase(c *Case) (r workerResult) {
 	defer func() {
 		if x := recover(); x != nil {
-			r.Out = "PANIC " + panicSummary(x)
+			r.Out = "PANIC"
+			r.Detail = panicSummary(x)
 		}
 	}()
 	f, ok := ops[c.Op]
@@ -368,6 +372,7 @@ type Disagreement struct {
 	Root   string            `json:"root,omitempty"`
 	Args   []string          `json:"args,omitempty"`
 	Prop   string            `json:"prop,omitempty"` // properties a monitor failure speaks about (comma separated)
+	Detail string            `json:"detail,omitempty"`
 }
 
 type Report struct {
@@ -387,7 +392,7 @@ type Report struct {
 }
 
 func caseDisagreement(c *Case) Disagreement {
-	d := Disagreement{ID: c.ID, Op: c.Op, Tag: c.Tag, Go: c.GoOut, Lean: c.LeanOut, LeanIn: c.LeanIn, Root: c.Root, Args: c.Args}
+	d := Disagreement{ID: c.ID, Op: c.Op, Tag: c.Tag, Go: c.GoOut, Lean: c.LeanOut, LeanIn: c.LeanIn, Root: c.Root, Args: c.Args, Detail: c.Detail}
 	if len(c.Files) > 0 {
 		d.Files = map[string]string{}
 		for k, v := range c.Files {
@@ -402,7 +407,7 @@ func correspond(op string, cases []*Case, rep *Report, timeout time.Duration) {
 	def := ops[op]
 	runWorkers(cases, timeout)
 	pending := cases
-	for round := 0; round < 8 && len(pending) > 0; round++ {
+	for round := 0; round < 600 && len(pending) > 0; round++ {
 		lines := make([]string, len(pending))
 		for i, c := range pending {
 			c.LeanIn = def.leanLine(c)
